@@ -1237,6 +1237,8 @@ func (n *Node) appKey() uint64 {
 		s.u64(uint64(m.preBlockOK))
 		s.u64(uint64(m.preBlockCall))
 		s.u64(uint64(m.blockOK))
+		s.u64(uint64(m.signCalls))
+		s.u64(uint64(m.setDataCalls))
 		hb := func(mm map[H]bool) {
 			var ks []H
 			for k := range mm {
